@@ -22,7 +22,7 @@ def _well_formed(kinds):
 
 
 def inputs(tier="quick"):
-    from .props import c01, c02, c04, c09, c11, c17, c18
+    from .props import c01, c02, c04, c06, c09, c11, c17, c18
 
     out = []
     # C01 family B (1-2 columns, one layout) and family C (pairs)
@@ -66,14 +66,30 @@ def inputs(tier="quick"):
         out.append(("c09", c09.build({"kind": "angle", "type": t, "sp": "comma", "pos": 1, "opt": 1})[0]))
     for si in range(len(c09.SIZED)):
         out.append(("c09", c09.build({"kind": "sized", "si": si, "pos": 1, "opt": 3})[0]))
+    # C06: keyword-named columns cited in key / index lists
+    for n, kw in enumerate(c06.keywords()):
+        if kw not in c06.EXCL:
+            listed = ("pk", "uq", "ix")[n % 3]
+            out.append(("c06", c06.kw_ddl({"kind": "kw", "kw": kw, "form": "l", "pos": 1 + n % 2, "ctx": n % 3, "listed": listed})[0]))
     # C17: sequences
     for sel in list(c17.gen(2))[::7]:
         out.append(("c17", c17.build({"sel": sel, "voff": 2, "kcase": "upper", "ctx": "between"})[0]))
     # C18: declarations
     for i, d in enumerate(c18.D()):
         if i % 5 == 0 and not d.get("noas") and not d.get("unsized"):
-            out.append(("c18", c18.build({"d": i, "ctx": "used" if d.get("use") else "before-table"})))
+            kwname = d.get("use") and any(d["use"] == k or d["use"].endswith("." + k) for k in c18.KWNAMES)
+            out.append(("c18", c18.build({"d": i, "ctx": "used" if (d.get("use") and not kwname) else "before-table"})))
     dial = []
+    # a multi-line table whose column names begin with statement-level / command words, keyed by a clause on its own line
+    dial.append(("names", "CREATE TABLE settings.created (\n  remote_id int NOT NULL,\n  dropped_at int,\n  altered int,\n  used_by int,\n  gone int,\n"
+                          "  inserted int,\n  granted int,\n  deleted_at int,\n  begin_ts int,\n  commit_id int,\n  prompt_x int,\n  executed int,\n"
+                          "  PRIMARY KEY (remote_id, dropped_at)\n);"))
+    # statements that are accepted without effect today (unsupported ALTER forms) and a DROP TABLE: the shape of the result stays documented
+    dial.append(("ignored", "CREATE TABLE t (a int, b varchar(5));\nALTER TABLE t ADD (e int, f varchar(5));\nALTER TABLE t ADD COLUMN g int;"))
+    dial.append(("drop", "CREATE TABLE s.t (a int);\nDROP TABLE s.t;\nDROP TABLE u;"))
+    # literals with a backslash / non-word characters in positions every mode reports
+    for lit in ("'\\N'", "'C:\\data\\in'", "'a-b_c'", "'Y or N'"):
+        dial.append(("lit", "CREATE TABLE t (c0 int, c1 varchar(20) DEFAULT %s, c2 varchar(9) COMMENT %s);" % (lit, lit)))
     # C11: every catalogued dialect clause on the plain body, and the creation modifiers that set dialect fields
     for owner, clause, _d1, _d2 in c11.CAT:
         dial.append(("c11", c11.BODIES["plain"] + " " + clause + ";"))
